@@ -26,6 +26,24 @@ package lalr
 //@     invariant forall p in max..enc.Goto[symbol+1] :: p % 2 == 0 ==> enc.FromTo[p] > state
 //@     decreases max - min
 
+// ---- precedence and associativity (C04): the decision taken for one shift/reduce choice ----
+
+//@ pred isTerm(g *Grammar, s Sym) = s > 0 && s < g.Terminals
+//@ spec func byAssoc(a Associativity) resolution = a == Left ? doReduce : (a == Right ? doShift : (a == NonAssoc ? doError : conflict))
+// decide(rp, term): rp is the rule's precedence terminal (0 = none)
+//@ spec func decide(c *compiler, rp Sym, term Sym) resolution = (rp == 0 || term == 0 || !has(c.precGroup, rp) || !has(c.precGroup, term)) ? conflict : (c.precGroup[rp] > c.precGroup[term] ? doReduce : (c.precGroup[rp] < c.precGroup[term] ? doShift : byAssoc(c.grammar.Precedence[c.precGroup[term]].Associativity)))
+
+//@ func compiler.resolvePrec
+//@   requires c.grammar != nil && 0 <= rule && rule < len(c.grammar.Rules)
+//@   requires forall t in 0..c.grammar.Terminals :: has(c.precGroup, t) ==> 0 <= c.precGroup[t] && c.precGroup[t] < len(c.grammar.Precedence)
+//@   requires 0 <= term && term < c.grammar.Terminals
+//@   ensures c.grammar.Rules[rule].Precedence != 0 ==> result == decide(c, c.grammar.Rules[rule].Precedence, term)
+//@   ensures c.grammar.Rules[rule].Precedence == 0 ==> forall i in 0..len(c.grammar.Rules[rule].RHS) :: (isTerm(c.grammar, c.grammar.Rules[rule].RHS[i]) && (forall j in i+1..len(c.grammar.Rules[rule].RHS) :: !isTerm(c.grammar, c.grammar.Rules[rule].RHS[j]))) ==> result == decide(c, c.grammar.Rules[rule].RHS[i], term)
+//@   ensures c.grammar.Rules[rule].Precedence == 0 && (forall i in 0..len(c.grammar.Rules[rule].RHS) :: !isTerm(c.grammar, c.grammar.Rules[rule].RHS[i])) ==> result == conflict
+//@   loop 1:
+//@     invariant -1 <= i && i < len(rhs) && rulePrec == 0 && sameslice(rhs, c.grammar.Rules[rule].RHS)
+//@     invariant forall j in i+1..len(rhs) :: !isTerm(c.grammar, rhs[j])
+
 // ---- runtime lookahead decision lists ----
 
 //@ func Lookahead.Accepts
